@@ -476,6 +476,20 @@ def gen_scenario(rng):
         setup.append(rec)
         exec_op(w, rec)
 
+    if rng.random() < 0.03:
+        # a vector beyond the library's size-dependent branches, written through one long contiguous slice
+        kd = rng.choice(["int", "bool", "date", "float"])
+        n = rng.choice([1001, 1002, 1500])
+        do({"op": "vec", "out": g.new_h(), "vals": V.enc_list([V.pick_value(rng, kd, 0.0) for _ in range(n)]), "form": "list", "name": "big"})
+        if rng.random() < 0.5:
+            do({"op": "read", "h": setup[-1]["out"], "what": "fp"})
+        a = rng.choice([0, 1, 2])
+        b = rng.choice([None, n - 1, n - 2]) if a else rng.choice([n - 1, n - 2])
+        cls = rng.choice(["wider", "same", "none", "incompat"])
+        val = {"same": V.pick_value(rng, kd, 0.0), "none": None, "incompat": "zz" if kd != "str" else 1,
+               "wider": V.pick_value(rng, V.WIDER[kd][0], 0.0) if kd in V.WIDER else V.pick_value(rng, kd, 0.0)}[cls]
+        return setup, {"op": "set", "h": setup[0]["out"], "key": {"k": "slice", "a": a, "b": b, "s": None},
+                       "val": {"k": "s", "v": V.enc(val)}, "cls": cls}
     mode = rng.choices(["vec", "promoted", "view", "shared", "tset", "rencols", "vec_fp"], [30, 8, 14, 5, 28, 10, 5])[0]
     target = None
     if mode in ("vec", "promoted", "vec_fp", "shared"):
@@ -506,8 +520,18 @@ def gen_scenario(rng):
         target = setup[-1]["out"]
     else:
         g.k["max_cols"] = 4
+        g.k["rare"] = 0.08          # unrepresentable ints (10**400) inside table columns: promotion can fail late
+        if rng.random() < 0.3:
+            g.k["kinds"] = ["int", "int", "bool", "float"]      # several columns of one kind: broadcasts hit them all
         do(g.g_tab_dict(w, []))
         target = setup[-1]["out"]
+        if rng.random() < 0.15:
+            # an int too large for a float in some int column: a later promotion of that column fails
+            ti = Info(w.handles[target])
+            ints = [j for j in range(ti.ncols) if ti.colkinds[j] == "int"]
+            if ints and ti.n:
+                do({"op": "tset", "t": target, "rows": {"k": "int", "i": rng.randrange(ti.n)}, "cols": {"k": "int", "i": rng.choice(ints)},
+                    "val": {"k": "s", "v": V.enc(V.BIG)}, "shape": "scalar"})
         if rng.random() < 0.3:
             do({"op": "read", "h": target, "what": "fp"})
         if rng.random() < 0.4:
